@@ -175,6 +175,7 @@ func ByID(id string) *Obligation {
 func Eval(p *prog.Prog, tier string, o *Obligation) (res *ObResult) {
 	res = &ObResult{Ob: o}
 	r := &Run{P: p, Tier: tier, Ob: o, Res: res}
+	curProg = p
 	defer func() {
 		if e := recover(); e != nil {
 			if ee, ok := e.(prog.ErrorExit); ok {
